@@ -85,30 +85,47 @@ Theorem C01_clear_then_frame : forall o h w st scr,
   sgrid scr' = sgrid (show o h w (front st)) /\ err scr' = false.
 Proof. exact clear_then_frame. Qed.
 
-(* known class Overlap: with two multi-cell objects on a common cell the statement is false
-   (1x3 terminal: a 2x3 image with face 2 at column 0 and a 1x1 image at column 1; then the small
-   image is removed) *)
+(* known classes OverlapImages / OverlapWideImage / OverlapWide: with two multi-cell objects on a
+   common cell the statement is false on the faithful model; one witness per sub-class *)
 Definition chr (f c : N) : cell := mkcell f (KChar c).
 Definition img (f i : N) : cell := mkcell f (KImg i).
 Definition gly (f g : N) : cell := mkcell f (KGlyph g).
 
 Definition overlap_oracle : oracle :=
-  mkoracle (fun _ => 1) (fun i => if N.eqb i 1%N then (2, 3) else (1, 1)) (fun g f => (1000 + 16 * g + f)%N)
+  mkoracle (fun ch => if N.leb 19990%N ch then 2 else 1)
+           (fun i => if N.eqb i 1%N then (2, 3) else (1, 1)) (fun g f => (1000 + 16 * g + f)%N)
            (fun f => f) (fun f => f) (fun _ => true).
-Definition overlap_ops : list op :=
+
+Definition refuted_by (ops : list op) : Prop :=
+  oracle_ok overlap_oracle
+  /\ (forall g, In (Draw g) ops -> in_domain overlap_oracle 1 3 g = true)
+  /\ spec_run overlap_oracle 1 3 (blank_screen 1 3) (gmake 1 3 cell_default) ops
+              (rrun overlap_oracle (rnew 1 3 false) ops) = false.
+
+(* a 2x3 image with face 2 at column 0 and a 1x1 image at column 1; then the small image is removed *)
+Definition overlap_images_ops : list op :=
   [Draw [[img 2%N 1%N; img 0%N 0%N; cell_default]]; Frame;
    Draw [[img 2%N 1%N; cell_default; cell_default]]; Frame].
+(* a wide character with a 1x1 image on its right half; then the image is removed *)
+Definition overlap_wide_image_ops : list op :=
+  [Draw [[chr 0%N 19990%N; img 1%N 0%N; cell_default]]; Frame;
+   Draw [[chr 0%N 19990%N; cell_default; cell_default]]; Frame].
+(* two wide characters in adjacent cells and a narrow one behind them: one frame, x is never painted *)
+Definition overlap_wide_ops : list op :=
+  [Draw [[chr 0%N 19990%N; chr 0%N 30028%N; chr 0%N 120%N]]; Frame].
 
-Theorem C01_overlap_refuted :
-  oracle_ok overlap_oracle
-  /\ (forall g, In (Draw g) overlap_ops -> in_domain overlap_oracle 1 3 g = true)
-  /\ spec_run overlap_oracle 1 3 (blank_screen 1 3) (gmake 1 3 cell_default) overlap_ops
-              (rrun overlap_oracle (rnew 1 3 false) overlap_ops) = false.
-Proof.
-  split; [repeat split|]. split.
-  - intros g [H|[H|[H|[H|[]]]]]; inversion H; subst; vm_compute; reflexivity.
-  - vm_compute. reflexivity.
-Qed.
+Ltac refute :=
+  split; [repeat split|]; split;
+  [intros g Hin; simpl in Hin;
+   repeat (destruct Hin as [Hin|Hin]; [inversion Hin; subst; vm_compute; reflexivity|]); contradiction
+  |vm_compute; reflexivity].
+
+Theorem C01_overlap_images_refuted : refuted_by overlap_images_ops.
+Proof. refute. Qed.
+Theorem C01_overlap_wide_image_refuted : refuted_by overlap_wide_image_ops.
+Proof. refute. Qed.
+Theorem C01_overlap_wide_refuted : refuted_by overlap_wide_ops.
+Proof. refute. Qed.
 
 Check C01_history : forall o h w ops,
   oracle_ok o -> good_ops o h w ops ->
